@@ -1531,3 +1531,91 @@ func ruleRemovableVerdictConsidersInputs(c *report.Ctx) {
 		c.Fail(key, "only the outputs decide whether a transaction record may be deleted with the wallet: a transaction paying the removed wallet alone but spending a surviving wallet's coin loses its record and its place in the block record, so when its block is rolled back afterwards the survivor's coin stays spent (balance and coins of another wallet changed by the removal)", p.Pos(rv.Pos()))
 	}
 }
+
+// ruleCodecSharesNoState (C13): the mnemonic codec keeps no mutable object between calls.
+func ruleCodecSharesNoState(c *report.Ctx) {
+	p := c.P
+	c.Rule("codec-shares-no-state", "the functions of the mnemonic codec (everything NewMnemonic, EntropyFromMnemonic, MnemonicToByteArray, IsMnemonicValid, NewSeed, NewSeedWithErrorChecking reach inside the keystore package) call no method of an object held in a package-level variable of interface type (a shared hash.Hash, a shared buffer behind an io.Writer …): such an object is mutated by every call, so two concurrent encodes/decodes corrupt each other's checksum — a valid sentence is rejected or a non-BIP-39 last word is produced", 10)
+	var roots []*ssa.Function
+	for _, n := range []string{"NewMnemonic", "EntropyFromMnemonic", "MnemonicToByteArray", "IsMnemonicValid", "NewSeed", "NewSeedWithErrorChecking", "NewEntropy"} {
+		if f := fn(c, pkgKeystore, "", n); f != nil {
+			roots = append(roots, f)
+		}
+	}
+	seen := map[*ssa.Function]bool{}
+	var fs []*ssa.Function
+	for _, r := range roots {
+		for _, g := range reachIn(p, r, pkgKeystore) {
+			if !seen[g] {
+				seen[g] = true
+				fs = append(fs, g)
+			}
+		}
+	}
+	sortFuncs(fs)
+	for _, f := range fs {
+		bad := 0
+		an.Instrs(f, func(in ssa.Instruction) {
+			cc := an.CallOf(in)
+			if cc == nil || !cc.IsInvoke() {
+				return
+			}
+			ld, ok := cc.Value.(*ssa.UnOp)
+			if !ok || ld.Op != token.MUL {
+				return
+			}
+			g, ok := ld.X.(*ssa.Global)
+			if !ok || g.Pkg == nil || g.Pkg.Pkg == nil || !strings.HasPrefix(g.Pkg.Pkg.Path(), pkgMain) {
+				return
+			}
+			bad++
+			c.Fail(siteKey(f, "shared:"+an.GName(g), bad), "the codec calls "+cc.Method.Name()+" on the package-level object "+an.GName(g)+": one object is mutated by every encode/decode, so concurrent callers get each other's intermediate state (wrong checksum)", posOf(c, in))
+		})
+		if bad == 0 {
+			c.OK(sk(f)+":no-shared-object", "no method of a package-level object is called", p.Pos(f.Pos()))
+		}
+	}
+}
+
+// ruleMnemonicLengthGateAdmitsEverySentence (C13): the API's byte-length gate in front of the keystore cannot reject a
+// well-formed sentence.
+func ruleMnemonicLengthGateAdmitsEverySentence(c *report.Ctx) {
+	p := c.P
+	c.Rule("api-length-gate", "the byte-length window api.checkMnemonicLen applies before a sentence reaches the keystore contains every single-spaced BIP-39 sentence: LenMnemonicMin <= 12*3+11 (twelve 3-letter words) and LenMnemonicMax >= 24*8+23 (twenty-four 8-letter words) — a narrower window rejects valid mnemonics at the RPC layer although the codec accepts them", 2)
+	get := func(name string) (int64, bool) {
+		o := p.Obj(pkgAPI, name)
+		k, ok := o.(*types.Const)
+		if !ok {
+			c.Lost("api." + name)
+			return 0, false
+		}
+		v, exact := constantInt64(k)
+		return v, exact
+	}
+	if v, ok := get("LenMnemonicMax"); ok {
+		if v >= 24*8+23 {
+			c.OK("api.LenMnemonicMax", "admits the longest sentence (215 bytes)", "")
+		} else {
+			c.Fail("api.LenMnemonicMax", "the upper bound of the mnemonic length gate ("+itoa(int(v))+") is below 215, the length of a 24-word sentence of 8-letter words: such a valid mnemonic cannot be imported through the API", "")
+		}
+	}
+	if v, ok := get("LenMnemonicMin"); ok {
+		if v <= 12*3+11 {
+			c.OK("api.LenMnemonicMin", "admits the shortest sentence (47 bytes)", "")
+		} else {
+			c.Fail("api.LenMnemonicMin", "the lower bound of the mnemonic length gate ("+itoa(int(v))+") is above 47, the length of a 12-word sentence of 3-letter words", "")
+		}
+	}
+}
+
+func constantInt64(k *types.Const) (int64, bool) {
+	s := k.Val().ExactString()
+	var v int64
+	for _, ch := range s {
+		if ch < '0' || ch > '9' {
+			return 0, false
+		}
+		v = v*10 + int64(ch-'0')
+	}
+	return v, true
+}
